@@ -208,20 +208,38 @@ impl<'a> Model<'a> {
                             _ => return Err(Stop::Unspecified("definitions file not included before use".to_string())),
                         },
                     };
+                    let mut builtin_content: Option<Vec<u8>> = None;
                     let q = match resolve(&container, spelling, &self.builtins) {
                         Resolved::Err(e) => return Err(Stop::Error(e)),
                         Resolved::Unspecified(w) => return Err(Stop::Unspecified(w)),
-                        Resolved::Builtin(_) => return Err(Stop::Unspecified("built-in library file as data".to_string())),
+                        Resolved::Builtin(name) => {
+                            // the bytes of a built-in library file (only as
+                            // bytes: what its text means as digits is not modelled)
+                            match (kind, crate::job::std_file_content(&name)) {
+                                (IncKind::Incbin, Some(c)) => {
+                                    builtin_content = Some(c.as_bytes().to_vec());
+                                    name
+                                }
+                                _ => return Err(Stop::Unspecified("built-in library file as digits".to_string())),
+                            }
+                        }
                         Resolved::Path(q) => q,
                     };
-                    let content: Vec<u8> = if let Some(d) = self.case.data.iter().find(|d| d.path == q) {
+                    let is_builtin = builtin_content.is_some();
+                    let content: Vec<u8> = if let Some(c) = builtin_content {
+                        c
+                    } else if let Some(d) = self.case.data.iter().find(|d| d.path == q) {
                         d.content.clone()
                     } else if self.case.files.iter().any(|f| f.path == q) {
                         return Err(Stop::Unspecified("source file used as data".to_string()));
                     } else {
                         return Err(Stop::Error(ErrClass::NotFound));
                     };
-                    self.touched.insert(q.clone());
+                    if !is_builtin {
+                        // (a built-in file is not a file of the project tree,
+                        // even when the tree has a directory named `<std>`)
+                        self.touched.insert(q.clone());
+                    }
                     let bits_before = self.bits.len();
                     let emits = !matches!(via, Via::Assert | Via::UnusedConst);
                     match kind {
